@@ -50,7 +50,19 @@ class C12Gen:
         self.flags = []      # 0/1 valued
         self.smalls = []     # small finite integer valued
         self.reals = []      # anything
+        self.probs = []      # variables that always hold a value in [0,1] and are used as probabilities
         self.all = []
+
+    def prob_update(self, q):
+        rng = self.rng
+        r = rng.random()
+        if r < 0.35:
+            return ["mul", num(Fraction(1, 2)), var(q)]
+        if r < 0.6:
+            return ["sub", num(1), var(q)]
+        if r < 0.8:
+            return ["mul", var(q), var(q)]
+        return ["mul", num(Fraction(1, 2)), ["add", var(q), num(1)]]
 
     # -- expressions -------------------------------------------------------
     def lin_expr(self, pool=None, allow_const=True):
@@ -93,6 +105,8 @@ class C12Gen:
         loc = self.lin_expr() if dep else const(rng)
         pos = lambda: num(rng.choice([1, 2, 3, Fraction(1, 2), Fraction(1, 4), 4]))
         if fam == "Bernoulli":
+            if self.probs and rng.random() < 0.5:
+                return ["draw", fam, [var(rng.choice(self.probs))]]
             return ["draw", fam, [num(rng.choice(PROB_POOL))]]
         if fam == "Categorical":
             return ["draw", fam, [num(p) for p in rand_probs(rng, rng.choice([2, 3, 4]))]]
@@ -132,6 +146,11 @@ class C12Gen:
 
     def choice(self):
         rng = self.rng
+        if self.probs and rng.random() < 0.5:
+            q = rng.choice(self.probs)
+            e1 = self.lin_expr() if rng.random() < 0.6 and self.all else const(rng)
+            e2 = self.lin_expr() if rng.random() < 0.6 and self.all else const(rng)
+            return ["choice", [[e1, var(q)], [e2, None if rng.random() < 0.5 else ["sub", num(1), var(q)]]]]
         k = rng.choice([2, 2, 3, 3, 4])
         probs = rand_probs(rng, k)
         items = []
@@ -216,9 +235,14 @@ class C12Gen:
             return ["simul", vs, rh]
         budget[0] -= 1
         t = self.target()
+        if self.probs and rng.random() < 0.12:
+            q = rng.choice(self.probs)
+            return ["assign", q, self.prob_update(q)]
         if t in self.flags:
             rr = rng.random()
             if rr < 0.6:
+                if self.probs and rng.random() < 0.4:
+                    return ["assign", t, ["draw", "Bernoulli", [var(rng.choice(self.probs))]]]
                 return ["assign", t, ["draw", "Bernoulli", [num(rng.choice(PROB_POOL))]]]
             if rr < 0.8:
                 return ["assign", t, ["choice", [[num(0), fstr(rng.choice(PROB_POOL))], [num(1), None]]]]
@@ -255,6 +279,7 @@ class C12Gen:
         self.smalls = names[3:3 + ns]
         self.reals = names[6:6 + nr]
         self.all = self.flags + self.smalls + self.reals
+        self.probs = ["q"] if rng.random() < 0.3 else []
         init = []
         avail = []
         saved_all = self.all
@@ -277,6 +302,8 @@ class C12Gen:
             init.append(["assign", v, rhs])
             avail = avail + [v]
         self.all = saved_all
+        for q in self.probs:
+            init.insert(0, ["assign", q, num(rng.choice([Fraction(1, 2), Fraction(1, 4), Fraction(3, 4), Fraction(1, 8)]))])
         if rng.random() < 0.25 and len(self.reals) >= 2:
             # simultaneous initialisation as in the documentation loops
             vs = self.reals[:2]
